@@ -201,7 +201,18 @@ theorem authenticate_valid (svc : AuthSvc) (a : ReqAuth) (u : Account) (w : Bool
 
 /-! ### the whole chain -/
 
-theorem write_route_is_post : ∀ r ∈ builtinRoutes, r.kind = .write → r.method = "POST".toList := by decide
+theorem write_route_facts : ∀ r ∈ builtinRoutes, r.kind = .write → r.method = "POST".toList ∧ r.forward = true := by decide
+
+theorem preview_route_facts : ∀ r ∈ builtinRoutes, r.kind = .preview → r.bypass = false ∧ r.pattern = preview ++ ['/'] := by
+  decide
+
+/-- The routes that may skip authentication: GET, below "/kapacitor/v1/debug/", plain handlers. -/
+theorem bypass_route_facts : ∀ r ∈ builtinRoutes, r.bypass = true →
+    r.method = "GET".toList ∧ "/kapacitor/v1/debug/".toList.isPrefixOf r.pattern = true ∧ r.kind = .other := by decide
+
+/-- What this file assumes of routes added later with `AddRoutes`: ordinary handlers without `BypassAuth`
+(no caller in the repository sets it; the extractor checks that on every run). -/
+def ExtraOK (cfg : Cfg) : Prop := ∀ r ∈ cfg.extra, r.kind = .recorder ∧ r.bypass = false
 
 theorem serveWriteLine_wrote (req : Req) (u : Account) (h : (serveWriteLine req u).served = true ∨ (serveWriteLine req u).wrote = true) :
     (serveWriteLine req u).served = false ∧ authorizeAction u.user (databaseResource req.db) writePriv = .allow := by
@@ -212,73 +223,249 @@ theorem serveWriteLine_wrote (req : Req) (u : Account) (h : (serveWriteLine req 
     · simp [hdb, ha]
     · simp [hdb, ha] at h
 
-/-- Everything a served / written request went through. -/
-theorem serveHTTP_sound (cfg : Cfg) (hextra : ∀ r ∈ cfg.extra, r.kind = .recorder) (fuel : Nat) :
+/-- Everything a served / written request went through at ONE pass of the chain. -/
+theorem serveLevel_sound (cfg : Cfg) (_hextra : ExtraOK cfg) (again : Req → HttpOut) (req : Req) (out : HttpOut)
+    (ho : out = serveLevel cfg again req) (h : out.served = true ∨ out.wrote = true) :
+    muxCleanPath req.path = req.path ∧ allowedMethods.contains req.method = true ∧
+    ∃ r acc w, muxMatch (builtinRoutes ++ cfg.extra) req.method req.path = some r ∧
+      authenticate (routeRequiresAuth cfg r) cfg.svc req.auth = .inner acc w ∧
+      authorizeRequest req.method req.path acc = true ∧
+      ((r.kind = .preview ∧ preview.isPrefixOf req.path = true ∧ out = again (rewritten req)) ∨
+       (r.kind ≠ .preview ∧ r.kind ≠ .notFound ∧
+        (out.wrote = true → r.kind = .write ∧ authorizeAction acc.user (databaseResource req.db) writePriv = .allow) ∧
+        (out.served = true → r.kind ≠ .write))) := by
+  unfold serveLevel at ho
+  by_cases hm : allowedMethods.contains req.method = true
+  · simp only [hm, Bool.not_true, Bool.false_eq_true, if_false] at ho
+    by_cases hcp : muxCleanPath req.path = req.path
+    · simp only [hcp, ne_eq, not_true_eq_false, if_false] at ho
+      cases hmm : muxMatch (builtinRoutes ++ cfg.extra) req.method req.path with
+      | none => rw [hmm] at ho; subst ho; simp at h
+      | some r =>
+        rw [hmm] at ho
+        simp only at ho
+        by_cases hopt : req.method = "OPTIONS".toList
+        · rw [if_pos hopt] at ho; subst ho; simp at h
+        · rw [if_neg hopt] at ho
+          cases hau : authenticate (routeRequiresAuth cfg r) cfg.svc req.auth with
+          | rejected => rw [hau] at ho; subst ho; simp at h
+          | inner u w =>
+            rw [hau] at ho
+            simp only at ho
+            by_cases haz : authorizeRequest req.method req.path u = true
+            · simp only [haz, Bool.not_true, Bool.false_eq_true, if_false] at ho
+              refine ⟨hcp, hm, r, u, w, rfl, hau, haz, ?_⟩
+              cases hk : r.kind with
+              | notFound => rw [hk] at ho; subst ho; simp at h
+              | ping => rw [hk] at ho; subst ho; right; simp
+              | optionsWrite => rw [hk] at ho; subst ho; right; simp
+              | other => rw [hk] at ho; subst ho; right; simp
+              | recorder => rw [hk] at ho; subst ho; right; simp
+              | write =>
+                rw [hk] at ho
+                simp only at ho
+                subst ho
+                right
+                have := serveWriteLine_wrote req u h
+                refine ⟨by simp, by simp, fun _ => ⟨rfl, this.2⟩, fun hs => ?_⟩
+                rw [this.1] at hs; cases hs
+              | preview =>
+                rw [hk] at ho
+                simp only at ho
+                by_cases hpre : preview.isPrefixOf req.path = true
+                · simp only [hpre, if_true] at ho
+                  left; exact ⟨rfl, hpre, ho⟩
+                · simp only [hpre, Bool.false_eq_true, if_false] at ho
+                  subst ho; simp at h
+            · simp only [haz, Bool.not_false, if_true] at ho
+              subst ho; simp at h
+    · simp only [ne_eq, hcp, not_false_eq_true, if_true] at ho
+      subst ho; simp at h
+  · simp only [hm, Bool.not_false, if_true] at ho
+    subst ho; simp at h
+
+/-- The routes of the outer pass and of the pass that finally served the request. -/
+structure Served (cfg : Cfg) (req : Req) (out : HttpOut) : Prop where
+  cleanPath : muxCleanPath req.path = req.path
+  method : allowedMethods.contains req.method = true
+  chain : ∃ r acc w, muxMatch (builtinRoutes ++ cfg.extra) req.method req.path = some r ∧
+      authenticate (routeRequiresAuth cfg r) cfg.svc req.auth = .inner acc w ∧
+      authorizeRequest req.method req.path acc = true ∧
+      (out.wrote = true → routeRequiresAuth cfg r = cfg.requireAuth ∧ req.method = "POST".toList ∧
+          authorizeAction acc.user (databaseResource req.db) writePriv = .allow)
+
+theorem routeRequiresAuth_nonbypass (cfg : Cfg) (r : Route) (h : r.bypass = false ∨ r.forward = true) :
+    routeRequiresAuth cfg r = cfg.requireAuth := by
+  unfold routeRequiresAuth
+  rcases h with h | h
+  · cases r.forward <;> simp [h]
+  · simp [h]
+
+theorem route_mem (cfg : Cfg) (hextra : ExtraOK cfg) (r : Route) (m : List Char) (p : Path)
+    (h : muxMatch (builtinRoutes ++ cfg.extra) m p = some r) :
+    (r ∈ builtinRoutes ∨ (r.kind = .recorder ∧ r.bypass = false)) ∧ r.method = m ∧ pathMatch r.pattern p = true := by
+  obtain ⟨hmem, hm, hp⟩ := muxMatch_spec _ _ _ _ h
+  refine ⟨?_, hm, hp⟩
+  rcases List.mem_append.mp hmem with hb | he
+  · exact Or.inl hb
+  · exact Or.inr (hextra r he)
+
+/-- Everything a served / written request went through (any number of preview re-entries). -/
+theorem serveHTTP_sound (cfg : Cfg) (hextra : ExtraOK cfg) (fuel : Nat) :
     ∀ (req : Req) (out : HttpOut), out = serveHTTP cfg fuel req → (out.served = true ∨ out.wrote = true) →
-      muxCleanPath req.path = req.path ∧ allowedMethods.contains req.method = true ∧
-      ∃ acc w, authenticate cfg.requireAuth cfg.svc req.auth = .inner acc w ∧
-        authorizeRequest req.method req.path acc = true ∧
-        (out.wrote = true → req.method = "POST".toList ∧
-          authorizeAction acc.user (databaseResource req.db) writePriv = .allow) := by
+      Served cfg req out := by
   induction fuel with
   | zero => intro req out ho h; subst ho; simp [serveHTTP] at h
   | succ f ih =>
     intro req out ho h
     rw [serveHTTP] at ho
-    by_cases hm : allowedMethods.contains req.method = true
-    · simp only [hm, Bool.not_true, Bool.false_eq_true, if_false] at ho
-      by_cases hcp : muxCleanPath req.path = req.path
-      · simp only [hcp, ne_eq, not_true_eq_false, if_false] at ho
-        cases hmm : muxMatch (builtinRoutes ++ cfg.extra) req.method req.path with
-        | none => rw [hmm] at ho; subst ho; simp at h
-        | some r =>
-          rw [hmm] at ho
-          simp only at ho
-          obtain ⟨hrmem, hrm, _⟩ := muxMatch_spec _ _ _ _ hmm
-          by_cases hopt : req.method = "OPTIONS".toList
-          · rw [if_pos hopt] at ho; subst ho; simp at h
-          · rw [if_neg hopt] at ho
-            cases hau : authenticate cfg.requireAuth cfg.svc req.auth with
-            | rejected => rw [hau] at ho; subst ho; simp at h
-            | inner u w =>
-              rw [hau] at ho
-              simp only at ho
-              by_cases haz : authorizeRequest req.method req.path u = true
-              · simp only [haz, Bool.not_true, Bool.false_eq_true, if_false] at ho
-                refine ⟨hcp, hm, u, w, rfl, haz, ?_⟩
-                cases hk : r.kind with
-                | notFound => rw [hk] at ho; subst ho; simp at h
-                | ping => rw [hk] at ho; subst ho; simp
-                | optionsWrite => rw [hk] at ho; subst ho; simp
-                | recorder => rw [hk] at ho; subst ho; simp
-                | write =>
-                  rw [hk] at ho
-                  simp only at ho
-                  subst ho
-                  intro _
-                  refine ⟨?_, (serveWriteLine_wrote req u h).2⟩
-                  rw [← hrm]
-                  rcases List.mem_append.mp hrmem with hb | he
-                  · exact write_route_is_post r hb hk
-                  · have := hextra r he; rw [hk] at this; cases this
-                | preview =>
-                  rw [hk] at ho
-                  simp only at ho
-                  by_cases hpre : preview.isPrefixOf req.path = true
-                  · simp only [hpre, if_true] at ho
-                    obtain ⟨_, _, acc', w', hau', _, hw'⟩ := ih _ out ho h
-                    simp only at hau' hw'
-                    rw [hau] at hau'
-                    injection hau' with e1 e2
-                    subst e1
-                    exact hw'
-                  · simp only [hpre, Bool.false_eq_true, if_false] at ho
-                    subst ho; simp at h
-              · simp only [haz, Bool.not_false, if_true] at ho
-                subst ho; simp at h
-      · simp only [ne_eq, hcp, not_false_eq_true, if_true] at ho
-        subst ho; simp at h
-    · simp only [hm, Bool.not_false, if_true] at ho
-      subst ho; simp at h
+    obtain ⟨hcp, hm, r, acc, w, hmm, hau, haz, hcase⟩ := serveLevel_sound cfg hextra _ req out ho h
+    obtain ⟨hmem, hrm, _⟩ := route_mem cfg hextra r _ _ hmm
+    refine ⟨hcp, hm, r, acc, w, hmm, hau, haz, ?_⟩
+    rcases hcase with ⟨hk, _, hout⟩ | ⟨_, _, hw, _⟩
+    · -- preview: the inner pass authenticates the same credentials
+      have hnb : routeRequiresAuth cfg r = cfg.requireAuth := by
+        apply routeRequiresAuth_nonbypass
+        rcases hmem with hb | he
+        · exact Or.inl (preview_route_facts r hb hk).1
+        · exact Or.inl he.2
+      intro hwr
+      have hin := ih (rewritten req) out hout h
+      obtain ⟨r', acc', w', _, hau', _, hw'⟩ := hin.chain
+      obtain ⟨hra', hpost, hdb⟩ := hw' hwr
+      rw [hra'] at hau'
+      rw [hnb] at hau
+      have e : AuthN.inner acc w = AuthN.inner acc' w' := by rw [← hau, ← hau']; rfl
+      injection e with e1 _
+      subst e1
+      exact ⟨hnb, hpost, hdb⟩
+    · intro hwr
+      obtain ⟨hk, hdb⟩ := hw hwr
+      rcases hmem with hb | he
+      · obtain ⟨hpost, hfwd⟩ := write_route_facts r hb hk
+        exact ⟨routeRequiresAuth_nonbypass cfg r (Or.inr hfwd), by rw [← hrm]; exact hpost, hdb⟩
+      · rw [hk] at he; cases he.1
+
+theorem pathMatch_prefix (pat p pre : Path) (h : pathMatch pat p = true) (hp : pre.isPrefixOf pat = true) :
+    pre.isPrefixOf p = true := by
+  unfold pathMatch at h
+  split at h
+  · cases h
+  · exact List.isPrefixOf_iff_prefix.mpr ((List.isPrefixOf_iff_prefix.mp hp).trans (List.isPrefixOf_iff_prefix.mp h))
+  · have : pat = p := by simpa using h
+    rw [← this]; exact hp
+
+
+/-! ### `rewritePreview` re-enters the handler at most once -/
+
+theorem serveLevel_congr (cfg : Cfg) (again again' : Req → HttpOut) (req : Req)
+    (h : ∀ r, muxMatch (builtinRoutes ++ cfg.extra) req.method req.path = some r → r.kind = .preview →
+      again (rewritten req) = again' (rewritten req)) :
+    serveLevel cfg again req = serveLevel cfg again' req := by
+  unfold serveLevel
+  cases hmm : muxMatch (builtinRoutes ++ cfg.extra) req.method req.path with
+  | none => rfl
+  | some r =>
+    have h' := h r hmm
+    obtain ⟨m, pat, kind, bp, fw⟩ := r
+    cases kind with
+    | preview => simp only [h' rfl]
+    | _ => rfl
+
+theorem preview_slash_not_prefix (rest : List Char) :
+    (preview ++ ['/']).isPrefixOf (base ++ '/' :: rest) = false := by
+  simp [preview, base, Gen.basePreviewPath, Gen.basePath, List.isPrefixOf]
+
+/-- After the rewrite the path starts with "/kapacitor/v1/", which the preview pattern cannot match. -/
+theorem rewritten_not_preview (cfg : Cfg) (hextra : ExtraOK cfg) (req : Req)
+    (hpre : (preview ++ ['/']).isPrefixOf req.path = true) (r : Route)
+    (hmm : muxMatch (builtinRoutes ++ cfg.extra) (rewritten req).method (rewritten req).path = some r) :
+    r.kind ≠ .preview := by
+  intro hk
+  obtain ⟨hmem, _, hpm⟩ := route_mem cfg hextra r _ _ hmm
+  rcases hmem with hb | he
+  · have hpat := (preview_route_facts r hb hk).2
+    have hp := pathMatch_prefix r.pattern _ r.pattern hpm (List.isPrefixOf_iff_prefix.mpr (List.prefix_refl _))
+    rw [hpat] at hp
+    obtain ⟨t, ht⟩ := List.isPrefixOf_iff_prefix.mp hpre
+    have : (rewritten req).path = base ++ '/' :: t := by
+      unfold rewritten
+      simp only
+      rw [← ht]
+      simp
+    rw [this, preview_slash_not_prefix] at hp
+    cases hp
+  · rw [hk] at he; cases he.1
+
+theorem outer_preview_prefix (cfg : Cfg) (hextra : ExtraOK cfg) (req : Req) (r : Route)
+    (hmm : muxMatch (builtinRoutes ++ cfg.extra) req.method req.path = some r) (hk : r.kind = .preview) :
+    (preview ++ ['/']).isPrefixOf req.path = true := by
+  obtain ⟨hmem, _, hpm⟩ := route_mem cfg hextra r _ _ hmm
+  rcases hmem with hb | he
+  · have hpat := (preview_route_facts r hb hk).2
+    have hp := pathMatch_prefix r.pattern _ r.pattern hpm (List.isPrefixOf_iff_prefix.mpr (List.prefix_refl _))
+    rw [hpat] at hp; exact hp
+  · rw [hk] at he; cases he.1
+
+/-- **Two passes are all that can happen**: more fuel changes nothing. -/
+theorem serveHTTP_depth (cfg : Cfg) (hextra : ExtraOK cfg) (f : Nat) (req : Req) :
+    serveHTTP cfg (f + 2) req = serveHTTP cfg 2 req := by
+  rw [serveHTTP, serveHTTP]
+  apply serveLevel_congr
+  intro r hmm hk
+  rw [serveHTTP, serveHTTP]
+  apply serveLevel_congr
+  intro r' hmm' hk'
+  exact absurd hk' (rewritten_not_preview cfg hextra req (outer_preview_prefix cfg hextra req r hmm hk) r' hmm')
+
+theorem serveWriteLine_status (req : Req) (u : Account) : (serveWriteLine req u).status ≠ 508 := by
+  unfold serveWriteLine
+  split
+  · simp
+  · split <;> simp
+
+theorem serveLevel_status (cfg : Cfg) (again : Req → HttpOut) (req : Req)
+    (h : ∀ r, muxMatch (builtinRoutes ++ cfg.extra) req.method req.path = some r → r.kind = .preview →
+      (again (rewritten req)).status ≠ 508) :
+    (serveLevel cfg again req).status ≠ 508 := by
+  unfold serveLevel
+  split
+  · simp
+  · split
+    · simp
+    · cases hmm : muxMatch (builtinRoutes ++ cfg.extra) req.method req.path with
+      | none => simp
+      | some r =>
+        simp only
+        split
+        · simp
+        · split
+          · simp
+          · rename_i u w _
+            split
+            · cases w <;> simp
+            · cases hk : r.kind with
+              | write => simp only; exact serveWriteLine_status req u
+              | preview =>
+                simp only
+                split
+                · exact h r hmm hk
+                · simp
+              | notFound => cases w <;> simp
+              | ping => cases w <;> simp
+              | optionsWrite => cases w <;> simp
+              | other => cases w <;> simp
+              | recorder => cases w <;> simp
+
+/-- The model's "fuel exhausted" answer never shows with fuel ≥ 2. -/
+theorem serveHTTP_never_exhausted (cfg : Cfg) (hextra : ExtraOK cfg) (f : Nat) (req : Req) :
+    (serveHTTP cfg (f + 2) req).status ≠ 508 := by
+  rw [serveHTTP_depth cfg hextra f req, serveHTTP]
+  apply serveLevel_status
+  intro r hmm hk
+  rw [serveHTTP]
+  apply serveLevel_status
+  intro r' hmm' hk'
+  exact absurd hk' (rewritten_not_preview cfg hextra req (outer_preview_prefix cfg hextra req r hmm hk) r' hmm')
 
 end Kap.C20
